@@ -14,7 +14,11 @@ PRE = ('From Coq Require Import List ZArith Bool String.\n'
        'From PV Require Import Base.Exn Model.WrapperSem Spec.WrapperSpec Model.WrapperStack Model.WrapperEval.\n'
        'Import ListNotations.\nOpen Scope string_scope.')
 
-NAMES = ['self', 'p0', 'p1', 'p2', 'p3', 'q0', 'q1', 'q2', 'x0', 'x1', 'x2', 'old0', 'old1', 'old2', 'cls']
+NAMES = ['self', 'p0', 'p1', 'p2', 'p3', 'q0', 'q1', 'q2', 'x0', 'x1', 'x2', 'old0', 'old1', 'old2', 'cls',
+         'func', 'args', 'kwargs', 'wrapper', 'f', 'result', 'value', 'other', 'k', 'v', 'return_value', 'decorated_func',
+         'call', 'original_result', 'other_func', 'start_time', 'async_wrapper', 'param_dict', 'result_kwargs']
+# names the wrappers use themselves (locals, parameters of helpers): a caller may use them as keywords too
+COLLIDE = NAMES[15:]
 DN = {'trace': 'NTrace', 'timer': 'NTimer', 'count_calls': 'NCountCalls', 'deprecated': 'NDeprecated',
       'trace_if_returns': 'NTraceIfReturns', 'does_same_as_function': 'NDoesSame', 'rename_kwargs': 'NRenameKwargs',
       'overrides': 'NOverrides', 'require_kwargs': 'NRequireKwargs', 'mock': 'NMock', 'unimplemented': 'NUnimplemented'}
@@ -59,19 +63,29 @@ def cfspec(is_async, sig, outs, tail):
     return f'{{| f_iscoro := {coq_bool(is_async)}; f_sig := {csig(sig)}; f_outs := {coq_list([cout(o) for o in outs])}; f_tail := {cout(tail)} |}}'
 
 
-def kwstrip(case, i):
-    """DecoratedFunction/FunctionCall.assert_uses_kwargs for the require_kwargs at level i, as it reads the generated
-    source: no test when the source says *args.  With @ lines: the first positional is dropped for methods and whenever
-    more than one decorator line precedes the def.  Applied by call (no @ lines in the source): the first positional is
-    dropped only when require_kwargs wraps the method itself (getfullargspec of another wrapper shows no `self`;
-    overrides hands the function back unchanged)"""
+def all_levels(case):
+    """outermost first: the levels added by the second decoration, then the stack"""
+    return list(case.get('redeco', [])) + list(case['stack'])
+
+
+def kwstrip_n(case, i):
+    """how many leading positionals the require_kwargs at position i of all_levels(case) does not count
+    (DecoratedFunction/FunctionCall.assert_uses_kwargs as they read the generated source); None = no test.
+    No test when the source says *args.  The first positional is dropped when require_kwargs wraps the method itself
+    (getfullargspec of another wrapper shows no `self`; overrides hands the function back unchanged) or when the
+    source shows more `@` lines than allowed (1 if the text `@require_kwargs` occurs in it, else 0)"""
     if case['sig']['varargs']:
-        return 'None'
-    if case.get('apply', '@') == '@':
-        n = 1 if (len(case['stack']) >= 2 or case.get('method')) else 0
-    else:
-        n = 1 if (case.get('method') and all(l['d'] == 'overrides' for l in case['stack'][i + 1:])) else 0
-    return f'(Some {coq_nat(n)})'
+        return None
+    lv = all_levels(case)
+    at_lines = len(case['stack']) if case.get('apply', '@') == '@' else 0
+    allowed = 1 if (at_lines and any(l['d'] == 'require_kwargs' for l in case['stack'])) else 0
+    inst = bool(case.get('method')) and all(l['d'] == 'overrides' for l in lv[i + 1:])
+    return 1 if (inst or at_lines > allowed) else 0
+
+
+def kwstrip(case, i):
+    n = kwstrip_n(case, i)
+    return 'None' if n is None else f'(Some {coq_nat(n)})'
 
 
 def clspec(l, case, i):
@@ -101,9 +115,12 @@ def coq_case(c):
         return (f'eval_class {DN[c["deco"][:-6]]} {f} {MEMBER[c["member"]]} {ACCESS[c["access"]]} (VObj {self_}) (VCls 0) (VCls 1) '
                 f'{coq_list([cval(x) for x in a])} {k}')
     o = c.get('other') or NO_OTHER
-    return (f'eval_case {coq_list([clspec(l, c, i) for i, l in enumerate(c["stack"])])} {cfspec(c["async"], c["sig"], c["outs"], c["tail"])} '
+    nre = len(c.get('redeco', []))
+    return (f'eval_case {coq_list([clspec(l, c, nre + i) for i, l in enumerate(c["stack"])])} {cfspec(c["async"], c["sig"], c["outs"], c["tail"])} '
             f'{cfspec(o["async"], o["sig"], o["outs"], o["tail"])} {FA[c.get("filter", "default")]} '
-            f'{coq_list([ccall(x, c.get("method")) for x in c["calls"]])}')
+            f'{coq_list([ccall(x, c.get("method")) for x in c["calls"]])} '
+            f'{coq_list([clspec(l, c, i) for i, l in enumerate(c.get("redeco", []))])} '
+            f'{coq_list([ccall(x, c.get("method")) for x in c.get("calls2", [])])}')
 
 
 def class_sig(c):
@@ -148,7 +165,9 @@ def canon_res(r):
 def parse_journal(cur, stops):
     out = []
     while cur.peek() is not None and cur.peek() not in stops:
-        callee, loglen, cnt, na = cur.take(4)
+        callee, loglen, ncnt = cur.take(3)
+        cnt = cur.take(ncnt)
+        na = cur.take()[0]
         a = [cur.take(2) for _ in range(na)]
         nk = cur.take()[0]
         k = []
@@ -159,7 +178,10 @@ def parse_journal(cur, stops):
     return out
 
 
-def parse_stack_output(xs, ncalls):
+def parse_stack_output(xs, c):
+    n1, n2 = len(c['calls']), len(c.get('calls2', []))
+    k1 = sum(1 for l in c['stack'] if l['d'] == 'count_calls')
+    k2 = k1 + sum(1 for l in c.get('redeco', []) if l['d'] == 'count_calls')
     cur = Cursor(xs)
     m = {}
     head = cur.take()[0]
@@ -167,10 +189,13 @@ def parse_stack_output(xs, ncalls):
         m['deco_error'] = cur.take()[0]
     else:
         m['results'], m['counts'] = [], []
-        for _ in range(ncalls):
-            r = cur.take(4)
-            m['results'].append(canon_res(r[:3]))
-            m['counts'].append(r[3])
+        for _ in range(n1):
+            m['results'].append(canon_res(cur.take(3)))
+            m['counts'].append(cur.take(k1))
+        cur.expect(-6)
+        for _ in range(n2):
+            m['results'].append(canon_res(cur.take(3)))
+            m['counts'].append(cur.take(k2))
         cur.expect(-1)
         m['journal'] = parse_journal(cur, (-2,))
         cur.expect(-2)
@@ -181,7 +206,7 @@ def parse_stack_output(xs, ncalls):
         cur.expect(-3)
         m['filter_after'] = cur.take()[0]
         cur.expect(-4)
-        m['attrs'], m['iscoro'] = cur.take(2)
+        m['attrs'], m['iscoro'], m['attrs2'], m['iscoro2'] = cur.take(4)
     cur.expect(-5)
     s = {}
     head = cur.take()[0]
@@ -192,7 +217,9 @@ def parse_stack_output(xs, ncalls):
         s['no_claim'] = True
     else:
         s['iscoro'] = cur.take()[0]
-        s['results'] = [canon_res(cur.take(3)) for _ in range(ncalls)]
+        s['results'] = [canon_res(cur.take(3)) for _ in range(n1)]
+        cur.expect(-6)
+        s['results'] += [canon_res(cur.take(3)) for _ in range(n2)]
         cur.expect(-1)
         s['journal'] = parse_journal(cur, ())
     return m, s
@@ -270,14 +297,23 @@ def strip_stamps(j):
 # ---------------------------------------------------------------------------------------------------------
 # generators
 # ---------------------------------------------------------------------------------------------------------
-def gen_sig(rng, method=False, rich=True):
+def gen_sig(rng, method=False, rich=True, collide=None):
+    """collide: use the wrappers' own local names (func, args, kwargs, result ...) as parameter / keyword names"""
     npos = rng.choice([0, 1, 1, 2, 2, 3])
     ndef = rng.randint(0, npos) if rng.random() < 0.5 else 0
-    pos = [['p%d' % i, i >= npos - ndef] for i in range(npos)]
     nkw = rng.choice([0, 0, 1, 2]) if rich else 0
-    sig = {'pos': ([['self', False]] if method else []) + pos, 'varargs': rich and rng.random() < 0.25,
-           'kwonly': [['q%d' % i, rng.random() < 0.5] for i in range(nkw)], 'varkw': rich and rng.random() < 0.3}
-    return sig
+    varargs, varkw = rich and rng.random() < 0.25, rich and rng.random() < 0.3
+    collide = rng.random() < 0.35 if collide is None else collide
+    pn, qn, extras = ['p%d' % i for i in range(npos)], ['q%d' % i for i in range(nkw)], ['x0', 'x1', 'x2']
+    if collide:
+        pool = [n for n in COLLIDE if not (n == 'args' and varargs) and not (n == 'kwargs' and varkw)]
+        rng.shuffle(pool)
+        pn, qn, extras = pool[:npos], pool[npos:npos + nkw], pool[npos + nkw:npos + nkw + 3]
+        if not method and rng.random() < 0.5:
+            extras[0] = rng.choice(['self', 'cls'])
+    pos = [[pn[i], i >= npos - ndef] for i in range(npos)]
+    return {'pos': ([['self', False]] if method else []) + pos, 'varargs': varargs,
+            'kwonly': [[qn[i], rng.random() < 0.5] for i in range(nkw)], 'varkw': varkw, 'extras': extras}
 
 
 def tok(rng):
@@ -299,14 +335,14 @@ def gen_call(rng, sig, method, style='valid', keyword_only=False):
         if not d or rng.random() < 0.5:
             k.append([n, tok(rng)])
     if sig['varkw'] and rng.random() < 0.5:
-        k += [['x%d' % i, tok(rng)] for i in range(rng.randint(1, 2))]
+        k += [[n, tok(rng)] for n in sig.get('extras', ['x0', 'x1', 'x2'])[:rng.randint(1, 2)]]
     rng.shuffle(k)
     if style == 'near':
         what = rng.choice(['surplus', 'unknown', 'missing', 'twice'])
         if what == 'surplus':
             a = a + [tok(rng)] * (len(pos) - len(a) + 1)
         elif what == 'unknown':
-            k.append(['x2', tok(rng)])
+            k.append([(sig.get('extras', []) + ['x0', 'x1', 'x2'])[2], tok(rng)])
         elif what == 'missing' and k:
             k.pop(rng.randrange(len(k)))
         elif what == 'twice' and a and pos:
@@ -327,7 +363,7 @@ def gen_level(rng, d, sig, method, style):
     if d in ('trace_if_returns', 'mock'):
         l['rv'] = rng.choice([None, tok(rng), 100 + rng.randint(0, 89)])
     if d == 'rename_kwargs':
-        names = [n for n, _ in sig['pos'] if n != 'self'] + [n for n, _ in sig['kwonly']] + ['x0']
+        names = [n for n, _ in sig['pos'] if n != 'self'] + [n for n, _ in sig['kwonly']] + [(sig.get('extras') or ['x0'])[0]]
         rules = []
         for j in range(rng.randint(1, 2)):
             rules.append(['old%d' % j, rng.choice(names)])
@@ -341,44 +377,63 @@ def gen_level(rng, d, sig, method, style):
     return l
 
 
-def gen_stack_case(rng, names, style, is_async=None, tier='quick'):
-    method = rng.random() < 0.3
+def gen_stack_case(rng, names, style, is_async=None, tier='quick', redeco=None, collide=None, sig=None, all_keywords=False):
+    """redeco: names of the decorators applied (by call) to the USED callable after the first part of the history"""
+    method = rng.random() < 0.3 if sig is None else False
     is_async = rng.random() < 0.45 if is_async is None else is_async
-    sig = gen_sig(rng, method)
+    sig = gen_sig(rng, method, collide=collide) if sig is None else sig
+    if redeco is None:
+        redeco = []
+        if rng.random() < 0.25:
+            redeco = [rng.choice(['count_calls', 'count_calls'] + [d for d in FULL if d != 'does_same_as_function'])
+                      for _ in range(rng.choice([1, 1, 2]))]
     case = {'kind': 'stack', 'stream': style, 'async': is_async, 'method': method, 'sig': sig,
             'apply': '@' if rng.random() < 0.8 else 'call'}
     case['stack'] = [gen_level(rng, d, sig, method, style) for d in names]
+    if redeco:
+        case['redeco'] = [gen_level(rng, d, sig, method, 'valid') for d in redeco]
+    everything = names + list(redeco)
+    listed = [r[0] for l in all_levels(case) for r in l.get('rules', [])]
+
+    def gen_calls(n):
+        calls = []
+        for _ in range(n):
+            kw_only = all_keywords or ('require_kwargs' in everything and not (style != 'valid' and rng.random() < 0.5))
+            c = gen_call(rng, sig, method, 'near' if (style == 'near' and rng.random() < 0.5) else 'valid', keyword_only=kw_only)
+            if all_keywords and sig['varkw']:
+                have = {kv[0] for kv in c['k']}
+                c['k'] += [[n2, tok(rng)] for n2 in sig.get('extras', []) if n2 not in have]
+            # use a listed keyword: rename one keyword of the call to an alias whose rule maps it back
+            for l in all_levels(case):
+                if l['d'] == 'rename_kwargs' and rng.random() < (0.5 if style == 'valid' else 0.8):
+                    for rule in l['rules']:
+                        for kv in c['k']:
+                            if kv[0] == rule[1] and rule[0].startswith('old') and not any(k2[0] == rule[0] for k2 in c['k']) \
+                                    and rng.random() < 0.7:
+                                kv[0] = rule[0]
+                                break
+            if style != 'valid' and listed and rng.random() < 0.2:
+                c['k'].append([rng.choice(listed), tok(rng)])      # possibly colliding after the renaming
+                seen = set()
+                c['k'] = [kv for kv in c['k'] if not (kv[0] in seen or seen.add(kv[0]))]
+            calls.append(c)
+        return calls
     ncalls = rng.choice([1, 1, 2, 3, 4] if tier == 'quick' else [1, 2, 3, 5, 8])
-    calls = []
-    listed = [r[0] for l in case['stack'] for r in l.get('rules', [])]
-    for _ in range(ncalls):
-        kw_only = 'require_kwargs' in names and not (style != 'valid' and rng.random() < 0.5)
-        c = gen_call(rng, sig, method, 'near' if (style == 'near' and rng.random() < 0.5) else 'valid', keyword_only=kw_only)
-        # use a listed keyword: rename one keyword of the call to an alias whose rule maps it back
-        for l in case['stack']:
-            if l['d'] == 'rename_kwargs' and rng.random() < (0.5 if style == 'valid' else 0.8):
-                for rule in l['rules']:
-                    for kv in c['k']:
-                        if kv[0] == rule[1] and rule[0].startswith('old') and not any(k2[0] == rule[0] for k2 in c['k']) \
-                                and rng.random() < 0.7:
-                            kv[0] = rule[0]
-                            break
-        if style != 'valid' and listed and rng.random() < 0.2:
-            c['k'].append([rng.choice(listed), tok(rng)])      # possibly colliding after the renaming
-            seen = set()
-            c['k'] = [kv for kv in c['k'] if not (kv[0] in seen or seen.add(kv[0]))]
-        calls.append(c)
-    case['calls'] = calls
-    case['outs'] = [gen_out(rng, i) for i in range(ncalls)]
+    case['calls'] = gen_calls(ncalls)
+    n2 = 0
+    if redeco:
+        n2 = rng.choice([1, 2, 3])
+        case['calls2'] = gen_calls(n2)
+    case['outs'] = [gen_out(rng, i) for i in range(ncalls + n2)]
     case['tail'] = ['ret', None]
     # make == interesting: trace_if_returns / mock values equal to, identical to, or different from the results
-    for l in case['stack']:
+    for l in all_levels(case):
         if l['d'] == 'trace_if_returns' and rng.random() < 0.6:
             rets = [o[1] for o in case['outs'] if o[0] == 'ret' and o[1] is not None]
             if rets:
                 r = rng.choice(rets)
                 l['rv'] = rng.choice([r, r + 10 if r + 10 < 200 else r - 10])      # same object | equal but distinct
-    if 'does_same_as_function' in names:
+    if 'does_same_as_function' in everything:
         o = {'async': is_async if rng.random() < 0.85 else not is_async, 'sig': sig if rng.random() < 0.8 else gen_sig(rng, method),
              'outs': [], 'tail': ['ret', None]}
         for out in case['outs']:
@@ -396,13 +451,24 @@ def gen_stack_case(rng, names, style, is_async=None, tier='quick'):
         if style == 'valid':
             o['async'] = is_async
         case['other'] = o
-    if 'deprecated' in names:
+    if 'deprecated' in everything:
         case['filter'] = rng.choice(['default', 'error', 'ignore', 'always'])
     return case
 
 
 def valid_stack(names):
-    return names.count('count_calls') <= 1 and names.count('does_same_as_function') <= 1
+    return names.count('does_same_as_function') <= 1
+
+
+def collision_sigs():
+    """every local name of the wrappers as a keyword: through **kwargs, and as named parameters"""
+    half = len(COLLIDE) // 2
+    named = [n for n in COLLIDE if n not in ('args', 'kwargs')]
+    return [{'pos': [], 'varargs': False, 'kwonly': [], 'varkw': True, 'extras': list(COLLIDE) + ['self', 'cls']},
+            {'pos': [[n, False] for n in named[:4]], 'varargs': False, 'kwonly': [[n, False] for n in named[4:half]],
+             'varkw': False, 'extras': []},
+            {'pos': [[n, True] for n in named[half:half + 3]], 'varargs': False, 'kwonly': [[n, False] for n in named[half + 3:]],
+             'varkw': True, 'extras': ['args', 'kwargs', 'self']}]
 
 
 def gen_stack_cases(rng, tier, scale):
@@ -416,7 +482,19 @@ def gen_stack_cases(rng, tier, scale):
             for style in ('valid', 'near'):
                 for _ in range(reps * scale):
                     cases.append(gen_stack_case(rng, names, style, is_async, tier))
-    n_rand = (1300 if tier == 'quick' else 24000) * scale
+    # every decorator called with keywords named like the wrappers' own locals
+    for names in singles:
+        for is_async in (False, True):
+            for sg in collision_sigs():
+                for _ in range(scale):
+                    cases.append(gen_stack_case(rng, names, 'valid', is_async, tier, redeco=[], sig=copy.deepcopy(sg), all_keywords=True))
+    # decoration as an operation inside the history: decorate, call, decorate the used callable again, call
+    for names in singles:
+        for re in (['count_calls'], ['count_calls', 'timer'], ['trace'], ['deprecated', 'count_calls']):
+            for is_async in (False, True):
+                for _ in range(scale):
+                    cases.append(gen_stack_case(rng, names, 'valid', is_async, tier, redeco=re))
+    n_rand = (1100 if tier == 'quick' else 24000) * scale
     for _ in range(n_rand):
         h = rng.choice([1, 2, 2, 3, 3, 4])
         names = [rng.choice(FULL) for _ in range(h)]
@@ -424,7 +502,9 @@ def gen_stack_cases(rng, tier, scale):
             continue
         u = rng.random()
         style = 'valid' if u < 0.45 else 'near' if u < 0.9 else 'malformed'
-        cases.append(gen_stack_case(rng, names, style, None, tier))
+        c = gen_stack_case(rng, names, style, None, tier)
+        if valid_stack([l['d'] for l in all_levels(c)]):
+            cases.append(c)
     return cases
 
 
@@ -436,8 +516,9 @@ def gen_class_cases(rng, tier, scale):
             for access in ('inst', 'class', 'subinst', 'subclass'):
                 for is_async in (False, True):
                     for _ in range(reps):
-                        sig = gen_sig(rng, False, rich=rng.random() < 0.5)
-                        c = gen_call(rng, sig, False, 'valid' if rng.random() < 0.8 else 'near')
+                        sig = gen_sig(rng, False, rich=rng.random() < 0.5, collide=rng.random() < 0.5)
+                        sig['extras'] = [n for n in sig['extras'] if n not in ('self', 'cls')] + ['x0']
+                        c = gen_call(rng, sig, False, 'valid' if rng.random() < 0.8 else 'near', keyword_only=rng.random() < 0.4)
                         if member == 'func' and access in ('class', 'subclass'):
                             c['a'] = [rng.choice(['inst', 'subinst'] if access == 'class' else ['subinst'])] + c['a']
                         if member == 'prop':
@@ -460,7 +541,8 @@ def size(c):
         return (0, len(c['a']) + len(c['k']), len(c['sig']['pos']))
     if c.get('kind') == 'meta':
         return (0, 0, 0)
-    return (len(c['stack']), len(c['calls']), sum(len(x['a']) + len(x['k']) for x in c['calls']))
+    calls = list(c['calls']) + list(c.get('calls2', []))
+    return (len(all_levels(c)), len(calls), sum(len(x['a']) + len(x['k']) for x in calls))
 
 
 def reaches(names, i):
@@ -481,11 +563,13 @@ def judge_stack(c, impl, out):
     if impl is None or 'error' in impl or out is None:
         return [f'no result: impl={str(impl)[:300]} model={"-" if out is None else "ok"}'], []
     try:
-        m, s = parse_stack_output(out, len(c['calls']))
+        m, s = parse_stack_output(out, c)
     except Exception as ex:
         return [f'unparsable model output: {ex}'], []
     twin, dec = impl.get('twin', {}), impl.get('dec', {})
     names = [l['d'] for l in c['stack']]
+    names2 = [l['d'] for l in all_levels(c)]
+    n1, n2 = len(c['calls']), len(c.get('calls2', []))
     if 'deco_error' in twin:
         return [f'the undecorated twin does not load: {twin}'], []
     # --- decoration-time behaviour
@@ -498,34 +582,39 @@ def judge_stack(c, impl, out):
                         f'{"PedanticOverrideException" if want else "no exception"} (overrides raises iff the base class lacks the name)')
         stat('decoration-time outcomes (overrides)')
         return corr, prop
+    if 'redeco_error' in dec:
+        return [f'the second decoration raised: {dec["redeco_error"]}'], []
     sigs = {0: (c['sig'], 80), 1: ((c.get('other') or NO_OTHER)['sig'], 60)}
     ij = canon_impl_journal(dec['journal'])
     mj = canon_model_journal(m['journal'], sigs)
+    meta, meta2 = dec['meta'], dec.get('meta2', dec['meta'])
     # --- correspondence: implementation vs model
-    for what, a, b in (('results', dec['results'], m['results']), ('num_calls after each call', dec['counts'], m['counts']),
+    for what, a, b in (('results', dec['results'], m['results']), ('num_calls of every count_calls wrapper after each call', dec['counts'], m['counts']),
                        ('journal of body invocations', ij, mj), ('printed lines / warnings', dec['events'], m['events']),
                        ('warning filter afterwards', dec['filter_after'], m['filter_after']),
-                       ('iscoroutinefunction', int(dec['meta']['iscoro']), m['iscoro']),
-                       ('metadata copied', int(all(dec['meta'][x] for x in ('name', 'qualname', 'doc', 'module'))), m['attrs'])):
+                       ('iscoroutinefunction', [int(meta['iscoro']), int(meta2['iscoro'])], [m['iscoro'], m['iscoro2']]),
+                       ('metadata copied', [int(all(mm[x] for x in ('name', 'qualname', 'doc', 'module'))) for mm in (meta, meta2)],
+                        [m['attrs'], m['attrs2']])):
         if a != b:
             corr.append(f'{what}: implementation {json.dumps(a)[:300]} model {json.dumps(b)[:300]}')
     # --- property: implementation vs the statement
-    meta = dec['meta']
-    bad = [x for x in ('name', 'qualname', 'doc', 'module') if not meta[x]]
-    if bad:
-        prop.append(f'decorated callable lost __{bad[0]}__ of the function it wraps')
-    if not meta['wrapped']:
-        prop.append('__wrapped__ chain does not lead to the decorated function')
-    if all(d in KEEPS for d in names) and meta['twin_iscoro'] and not meta['iscoro']:
-        prop.append('a coroutine function is no longer a coroutine function after decoration')
-    if not meta['twin_iscoro'] and meta['iscoro'] and all(d in FULL for d in names):
-        prop.append('a plain function became a coroutine function')
+    for mm, nn, when in ((meta, names, ''), (meta2, names2, ' (after the second decoration)')):
+        bad = [x for x in ('name', 'qualname', 'doc', 'module') if not mm[x]]
+        if bad:
+            prop.append(f'decorated callable lost __{bad[0]}__ of the function it wraps{when}')
+        if not mm['wrapped']:
+            prop.append(f'__wrapped__ chain does not lead to the decorated function{when}')
+        if all(d in KEEPS for d in nn) and mm['twin_iscoro'] and not mm['iscoro']:
+            prop.append(f'a coroutine function is no longer a coroutine function after decoration{when}')
+        if not mm['twin_iscoro'] and mm['iscoro'] and all(d in FULL for d in nn):
+            prop.append(f'a plain function became a coroutine function{when}')
     if 'no_claim' not in s:
         stat('stack cases judged against the Coq spec (spec_ok)')
         sj = canon_model_journal(s['journal'], sigs)
         if dec['results'] != s['results']:
             k = next(i for i, (x, y) in enumerate(zip(dec['results'], s['results'])) if x != y)
-            prop.append(f'call {k}: the caller gets {describe(dec["results"][k])}, the documented effect of {"/".join(names)} is {describe(s["results"][k])}')
+            who = names if k < n1 else names2
+            prop.append(f'call {k}: the caller gets {describe(dec["results"][k])}, the documented effect of {"/".join(who)} is {describe(s["results"][k])}')
         elif strip_stamps(ij) != strip_stamps(sj):
             prop.append(f'body invocations {json.dumps(strip_stamps(ij))[:300]} differ from the documented '
                         f'{json.dumps(strip_stamps(sj))[:300]} (callee 0 = decorated function, 1 = other_func; bound arguments by identity)')
@@ -538,21 +627,40 @@ def judge_stack(c, impl, out):
         elif strip_stamps(ij) != strip_stamps(canon_impl_journal(twin['journal'])):
             prop.append(f'decorated runs the body as {json.dumps(strip_stamps(ij))[:300]}, the twin as '
                         f'{json.dumps(strip_stamps(canon_impl_journal(twin["journal"])))[:300]}')
-    for i, d in enumerate(names):
-        if d == 'count_calls' and reaches(names, i):
+    # count_calls: every wrapper object counts the calls it received since it was created
+    nre = len(names2) - len(names)
+    cpos2 = [i for i, d in enumerate(names2) if d == 'count_calls']          # positions, outermost first
+    for col, i in enumerate(cpos2):
+        fresh = i < nre                                                        # created by the second decoration
+        r1 = (not fresh) and reaches(names, i - nre)
+        r2 = reaches(names2, i)
+        col1 = col - sum(1 for q in cpos2 if q < nre)                          # column in the phase 1 rows
+        if r1:
             stat('count_calls histories checked against 1..n')
-        if d == 'count_calls' and reaches(names, i) and dec['counts'] != list(range(1, len(c['calls']) + 1)):
-            prop.append(f'count_calls: num_calls after each call is {dec["counts"]}, expected 1..{len(c["calls"])}')
-    ndep = [i for i, d in enumerate(names) if d == 'deprecated']
-    if ndep and all(reaches(names, i) for i in ndep):
+            got = [row[col1] for row in dec['counts'][:n1]]
+            if got != list(range(1, n1 + 1)):
+                prop.append(f'count_calls (level {i - nre} of {"/".join(names)}): num_calls after each call is {got}, expected 1..{n1}')
+        if n2 and r2 and (fresh or r1):
+            stat('count_calls histories checked across a second decoration')
+            got = [row[col] for row in dec['counts'][n1:]]
+            base = 0 if fresh else n1
+            if got != list(range(base + 1, base + n2 + 1)):
+                prop.append(f'count_calls (level {i} of {"/".join(names2)}, {"created after " + str(n1) + " calls of the callable it wraps" if fresh else "created at the start"}): '
+                            f'num_calls after each later call is {got}, expected {base + 1}..{base + n2}')
+    d1 = [i for i, d in enumerate(names) if d == 'deprecated']
+    d2 = [i for i, d in enumerate(names2) if d == 'deprecated']
+    if (d1 or d2) and all(reaches(names, i) for i in d1) and all(reaches(names2, i) for i in d2):
         stat('deprecated histories checked for one warning per call')
-        got = dec['events'].count(2)
-        if got != len(ndep) * len(c['calls']):
-            prop.append(f'deprecated: {got} DeprecationWarnings for {len(c["calls"])} calls of {len(ndep)} deprecated level(s), '
-                        f'initial filter {c.get("filter", "default")}')
-    for i, d in enumerate(names):
-        if d in ('mock', 'unimplemented') and any(e[0] == 0 for e in dec['journal']):
+        got, want = dec['events'].count(2), len(d1) * n1 + len(d2) * n2
+        if got != want:
+            prop.append(f'deprecated: {got} DeprecationWarnings, expected {want} ({n1} calls through {len(d1)} deprecated level(s)'
+                        f'{", then " + str(n2) + " calls through " + str(len(d2)) if n2 else ""}), initial filter {c.get("filter", "default")}')
+    body_runs = [e for e in dec['journal'] if e[0] == 0]
+    for d in ('mock', 'unimplemented'):
+        if d in names and body_runs:
             prop.append(f'{d}: the body of the decorated function ran')
+        elif d in names2 and len(body_runs) > n1:
+            prop.append(f'{d}: the body of the decorated function ran after {d} was applied')
     return corr, prop
 
 
@@ -564,8 +672,8 @@ def describe(r):
 
 
 def transparent_history(c):
-    names = [l['d'] for l in c['stack']]
-    for l in c['stack']:
+    calls = list(c['calls']) + list(c.get('calls2', []))
+    for i, l in enumerate(all_levels(c)):
         d = l['d']
         if d in PASS:
             if d == 'overrides' and not l.get('dir', True):
@@ -573,11 +681,11 @@ def transparent_history(c):
             continue
         if d == 'rename_kwargs':
             listed = {r[0] for r in l['rules']}
-            if any(kv[0] in listed for call in c['calls'] for kv in call['k']):
+            if any(kv[0] in listed for call in calls for kv in call['k']):
                 return False
             continue
         if d == 'require_kwargs':
-            if any(call['a'] for call in c['calls']):
+            if any(call['a'] for call in calls):
                 return False
             continue
         return False
@@ -660,10 +768,9 @@ def matcher(f, case):
     if not isinstance(case, dict):
         return False
     if m.get('id') == 'require_kwargs_applied_by_call_over_a_wrapper_of_a_method':
-        return (case.get('kind', 'stack') == 'stack' and case.get('apply') == 'call' and bool(case.get('method'))
-                and not case['sig']['varargs']
-                and any(l['d'] == 'require_kwargs' and any(x['d'] != 'overrides' for x in case['stack'][i + 1:])
-                        for i, l in enumerate(case['stack'])))
+        # a require_kwargs level of a method whose own keyword-only test counts self as a positional argument
+        return (case.get('kind', 'stack') == 'stack' and bool(case.get('method')) and not case['sig']['varargs']
+                and any(l['d'] == 'require_kwargs' and kwstrip_n(case, i) == 0 for i, l in enumerate(all_levels(case))))
     if case.get('kind') != 'class':
         return False
     if m.get('id') == 'for_all_methods_static_or_class_method_through_instance':
@@ -674,35 +781,54 @@ def matcher(f, case):
 
 
 def shrink_candidates(c):
-    """smaller variants of a stack case: one level removed, one call kept, one argument dropped"""
+    """smaller variants of a stack case: the second decoration dropped, one level removed, one call kept, one keyword dropped"""
     out = []
     if c.get('kind', 'stack') != 'stack':
         return out
-    if len(c['stack']) > 1:
-        for i in range(len(c['stack'])):
-            d = copy.deepcopy(c)
-            d['stack'].pop(i)
-            if not any(l['d'] == 'does_same_as_function' for l in d['stack']):
-                d.pop('other', None)
-            out.append(d)
-    if len(c['calls']) > 1:
-        for i in range(len(c['calls'])):
-            d = copy.deepcopy(c)
-            d['calls'] = [c['calls'][i]]
-            d['outs'] = [c['outs'][0]] if False else c['outs'][:1]
-            out.append(d)
-            d2 = copy.deepcopy(d)
-            d2['outs'] = [c['outs'][i]]
-            if 'other' in d2:
-                d2['other']['outs'] = c['other']['outs'][i:i + 1]
-            out.append(d2)
-    for i, call in enumerate(c['calls']):
-        for j in range(len(call['k'])):
-            d = copy.deepcopy(c)
-            d['calls'][i]['k'].pop(j)
-            out.append(d)
-    if c.get('method'):
-        pass
+
+    def tidy(d):
+        if not any(l['d'] == 'does_same_as_function' for l in all_levels(d)):
+            d.pop('other', None)
+        if not d.get('redeco'):
+            d.pop('redeco', None)
+            if not d.get('calls2'):
+                d.pop('calls2', None)
+        return d
+    if c.get('redeco') or c.get('calls2'):
+        d = copy.deepcopy(c)
+        d.pop('redeco', None)
+        d.pop('calls2', None)
+        out.append(tidy(d))
+        d = copy.deepcopy(c)          # everything decorated at the start instead
+        d['calls'] = d['calls'] + d.pop('calls2', [])
+        d['stack'] = d.pop('redeco', []) + d['stack']
+        d['apply'] = 'call'
+        out.append(tidy(d))
+    for key in ('redeco', 'stack'):
+        if len(c.get(key, [])) > (1 if key == 'stack' else 0):
+            for i in range(len(c[key])):
+                d = copy.deepcopy(c)
+                d[key].pop(i)
+                out.append(tidy(d))
+    for key in ('calls', 'calls2'):
+        if len(c.get(key, [])) > 1:
+            off = 0 if key == 'calls' else len(c['calls'])
+            for i in range(len(c[key])):
+                d = copy.deepcopy(c)
+                d[key] = [c[key][i]]
+                out.append(d)
+                d2 = copy.deepcopy(d)          # ... with the outcome that call had
+                d2['outs'] = c['outs'][:off] + [c['outs'][off + i]] + c['outs'][off + len(c[key]):] if off + i < len(c['outs']) else c['outs']
+                if 'other' in d2:
+                    oo = c['other']['outs']
+                    d2['other']['outs'] = oo[:off] + oo[off + i:off + i + 1] + oo[off + len(c[key]):]
+                out.append(d2)
+    for key in ('calls', 'calls2'):
+        for i, call in enumerate(c.get(key, [])):
+            for j in range(len(call['k'])):
+                d = copy.deepcopy(c)
+                d[key][i]['k'].pop(j)
+                out.append(d)
     return out
 
 
